@@ -221,3 +221,152 @@ Proof.
   exists i, gn, g', k. rewrite nth_include_nat.
   repeat split; try assumption. rewrite Hdefs. exact Hdef.
 Qed.
+
+(* ---- base services ---- *)
+
+(* what resolution records for the base service of a service of file g *)
+Definition svc_good (p : program) (g : file) (sv sv' : service) : Prop :=
+  sv_name sv' = sv_name sv /\ sv_extends sv' = sv_extends sv /\
+  match sv_ref sv' with
+  | Some rf => exists pre i gn,
+      split_type (sv_extends sv) = [pre; ref_name rf] /\ ref_index rf = Z.of_nat i /\
+      nth_error (file_incs g) i = Some (pre, Some gn) /\ def_of p gn (ref_name rf) = Some DkService
+  | None => True
+  end.
+Definition svcs_good (p : program) (g g' : file) : Prop := Forall2 (svc_good p g) (f_services g) (f_services g').
+
+Lemma is_service_kind_eq k : is_service_kind k = true -> k = DkService.
+Proof. destruct k as [tgt| |vs|sk|]; try discriminate; [destruct sk; discriminate|reflexivity]. Qed.
+
+Lemma resolve_file_services p done f f' :
+  inv p done -> (forall i, In i (f_includes f) -> exists hn, in_ref i = Some hn /\ lookup hn done <> None) ->
+  resolve_file_in done f = Ok f' -> svcs_good p f f'.
+Proof.
+  intros Hinv Htg H. unfold resolve_file_in in H. inv_bind H. injection H as <-.
+  rename x5 into sv1, x12 into sv2.
+  unfold svcs_good, with_includes. cbn [f_services].
+  pose proof (two_mapM _ _ _ _ _ E5 E12) as F. eapply Forall2_impl'; [|exact F].
+  intros sv sv' (s1 & H1 & H2). cbv beta in *.
+  unfold resolve_service in H1. inv_bind H1. injection H1 as <-.
+  unfold fix_service in H2. inv_bind H2. injection H2 as <-. cbn [sv_name sv_extends sv_ref].
+  unfold svc_good. cbn [sv_name sv_extends sv_ref]. split; [reflexivity|]. split; [reflexivity|].
+  rename x12 into rf. unfold resolve_base in E14.
+  destruct (split_type (sv_extends sv)) as [|a [|m [|? ?]]] eqn:Es.
+  - injection E14 as <-. exact I.
+  - destruct (lookup a (n2c_of _)) as [[]|]; try discriminate. injection E14 as <-. exact I.
+  - cbn [f_includes with_typedefs with_name2cat] in E14.
+    destruct (find_include done is_service_cat a m (f_includes f) 0) as [[idx c]|] eqn:Ef; [|discriminate].
+    injection E14 as <-. cbn [ref_name ref_index].
+    destruct (find_include_spec p done is_service_cat is_service_kind a m Hinv (fun k => eq_refl) (f_includes f) 0 idx c Htg Ef)
+      as (gn & k & Hs & Hd & Hc).
+    destruct (spec_include_nth p is_service_kind a m _ _ _ _ Hs) as (_ & Hnth & k' & Hd' & Hk').
+    rewrite Nat.sub_0_r in Hnth. exists a, idx, gn. split; [reflexivity|]. split; [reflexivity|].
+    split; [exact Hnth|]. rewrite Hd'. f_equal. apply is_service_kind_eq. exact Hk'.
+  - injection E14 as <-. exact I.
+Qed.
+
+Definition sinv (p done : program) : Prop :=
+  forall gn g', lookup gn done = Some g' -> exists g, prog_file p gn = Some g /\ svcs_good p g g'.
+
+Lemma resolve_rec_sinv p : forall fuel done fn done',
+  inv p done -> sinv p done -> resolve_rec fuel p done fn = Ok done' -> sinv p done'.
+Proof.
+  induction fuel as [|k IH]; intros done fn done' Hinv Hs H; cbn [resolve_rec] in H.
+  - destruct (lookup fn done) eqn:L; [|discriminate]. injection H as <-. exact Hs.
+  - destruct (lookup fn done) eqn:L; [injection H as <-; exact Hs|].
+    destruct (prog_file p fn) as [f|] eqn:Pf; [|discriminate].
+    inv_bind H. rename x into done1.
+    assert (Hgo : forall incs d d1, inv p d -> sinv p d ->
+      (fix go (incs : list include) (d : program) {struct incs} : result program :=
+         match incs with
+         | [] => Ok d
+         | i :: r => match in_ref i with
+                     | Some g => d' <- resolve_rec k p d g;; go r d'
+                     | None => Error ErrNotParsed
+                     end
+         end) incs d = Ok d1 ->
+      inv p d1 /\ sinv p d1 /\ extends d d1 /\ forall i, In i incs -> exists hn, in_ref i = Some hn /\ lookup hn d1 <> None).
+    { induction incs as [|i incs IHi]; intros d d1 Hd Hsd Hgo.
+      - injection Hgo as <-. split; [exact Hd|]. split; [exact Hsd|]. split; [apply extends_refl|intros i []].
+      - destruct (in_ref i) as [g|] eqn:Ri; [|discriminate]. inv_bind Hgo.
+        destruct (resolve_rec_inv p _ _ _ _ Hd E0) as (I1 & X1 & L1).
+        pose proof (IH _ _ _ Hd Hsd E0) as S1.
+        destruct (IHi _ _ I1 S1 Hgo) as (I2 & S2 & X2 & L2).
+        split; [exact I2|]. split; [exact S2|]. split; [eapply extends_trans; eauto|].
+        intros j [<-|Hj]; [|apply L2; exact Hj]. exists g. split; [exact Ri|]. eapply extends_some; eauto. }
+    destruct (Hgo _ _ _ Hinv Hs E) as (I1 & S1 & X1 & T1). clear Hgo E.
+    destruct (lookup fn done1) eqn:L1; [discriminate|]. inv_bind H. injection H as <-.
+    intros gn g' Hl. cbn [lookup] in Hl. destruct (beqb gn fn) eqn:Eg.
+    + apply beqb_true in Eg. subst gn. injection Hl as <-. exists f. split; [exact Pf|].
+      exact (resolve_file_services p done1 f x I1 T1 E).
+    + exact (S1 gn g' Hl).
+Qed.
+
+Lemma sinv_nil p : sinv p [].
+Proof. intros gn g' H. discriminate. Qed.
+
+Theorem resolve_services_good p r :
+  parsed_program p = true -> resolve_program p = Ok r ->
+  forall fn f', prog_file r fn = Some f' -> f_name2cat f' <> None ->
+  exists f, prog_file p fn = Some f /\ svcs_good p f f'.
+Proof.
+  intros Hp H. unfold resolve_program in H. destruct p as [|[mainfn mf] p'] eqn:Ep.
+  - injection H as <-. intros fn f' Hf. discriminate.
+  - rewrite <- Ep in *. inv_bind H. injection H as <-. rename x into done.
+    pose proof (resolve_rec_sinv p _ _ _ _ (inv_nil p) (sinv_nil p) E) as Hs.
+    intros fn f' Hf Hn. unfold prog_file in Hf. rewrite lookup_map_done in Hf.
+    destruct (lookup fn p) as [f|] eqn:Lf; [|discriminate]. injection Hf as Hf.
+    destruct (lookup fn done) as [f2|] eqn:Ld.
+    + subst f2. exact (Hs fn f' Ld).
+    + subst f'. pose proof (parsed_file p fn f Hp Lf) as Hu. unfold unresolved_file in Hu.
+      destruct (f_name2cat f); [discriminate|congruence].
+Qed.
+
+(* The base service the resolver bound through an include (sv_ref = include index idx and name m) is
+   the service the descriptors find: GetServiceDescriptor of the written base name, and GetParent,
+   return the descriptor of service m of the file include idx refers to, which defines it. *)
+Theorem base_service_lookup_right p r fn f' sv' m idx :
+  parsed_program p = true -> resolve_program p = Ok r -> prog_ok r = true ->
+  prog_file r fn = Some f' -> f_name2cat f' <> None ->
+  distinct_basenames f' = true -> includes_plain f' = true -> includes_named f' = true ->
+  In sv' (f_services f') -> sv_ref sv' = Some (Ref m idx) -> m <> [] ->
+  exists i gn g',
+    nth_include f' idx = Some i /\ in_ref i = Some gn /\ prog_file r gn = Some g' /\
+    lookup m (file_defs g') = Some DkService /\
+    get_service (registry_of r) (descriptor_of f') (sv_extends sv') = omap (service_desc (f_filename g')) (find_service g' m) /\
+    get_parent (registry_of r) (service_desc fn sv') = omap (service_desc (f_filename g')) (find_service g' m).
+Proof.
+  intros Hp Hr HPok Hf Hn Hd Hpl Hnm Hin Href Hm.
+  destruct (resolve_services_good p r Hp Hr fn f' Hf Hn) as (f & Hpf & Hsv).
+  destruct (Forall2_In_r_ex _ _ _ _ Hsv Hin) as (sv & Hg).
+  destruct Hg as (_ & Hext & Hg). rewrite Href in Hg. cbn [ref_name ref_index] in Hg.
+  destruct Hg as (pre & i0 & gn & Hsplit & -> & Hnth & Hdef).
+  destruct (resolve_program_good p r Hp Hr) as (done & _ & Hgood). destruct (Hgood fn f' Hf Hn) as (f2 & Hpf2 & Gd).
+  assert (f2 = f) by congruence. subst f2.
+  assert (Eincs : file_incs f' = file_incs f).
+  { unfold file_incs. pose proof (gd_incs _ _ _ _ _ Gd) as E.
+    apply (f_equal (map (fun pr : bytes * option bytes => (idl_prefix (fst pr), snd pr)))) in E.
+    rewrite !map_map in E. exact E. }
+  rewrite <- Eincs in Hnth. unfold file_incs in Hnth. rewrite nth_error_map in Hnth.
+  destruct (nth_error (f_includes f') i0) as [i|] eqn:Ei; [|discriminate]. cbn [option_map] in Hnth.
+  injection Hnth as Hpre Hiref.
+  assert (HinI : In i (f_includes f')) by (eapply nth_error_In; exact Ei).
+  assert (Hname : sv_extends sv' = pre ++ dot :: m /\ no_byte dot m = true).
+  { rewrite Hext. unfold split_type in Hsplit. destruct (sv_extends sv) as [|c0 rest] eqn:En; [discriminate|].
+    destruct (last_index_split dot (c0 :: rest)) as [[a b]|] eqn:El; [|discriminate].
+    injection Hsplit as <- <-. apply last_index_split_inv. exact El. }
+  destruct Hname as [Hname Hnodot].
+  unfold def_of in Hdef. destruct (prog_file p gn) as [g|] eqn:Hg; [|discriminate].
+  destruct (resolve_keeps_defs p r Hr gn g Hg) as (g' & Hg' & Hdefs).
+  assert (Epath : include_path i = gn) by (unfold include_path; rewrite Hiref; reflexivity).
+  assert (Ealias : include_alias gn = pre).
+  { rewrite <- Epath, <- Hpre. apply include_alias_prefix. unfold includes_plain in Hpl. rewrite forallb_forall in Hpl. exact (Hpl i HinI). }
+  unfold includes_named in Hnm. rewrite forallb_forall in Hnm. specialize (Hnm i HinI). apply andb_true_iff in Hnm as [Hn1 Hn2].
+  rewrite Epath in Hn1, Hn2. apply is_empty_neg in Hn1. apply is_empty_neg in Hn2.
+  pose proof (lookup_by_name_through_include r f' i gn g' m HPok Hd HinI Hiref Hn1 Hn2 Hg' Hm Hnodot) as L.
+  cbv zeta in L. rewrite Ealias, <- Hname in L. destruct L as (_ & _ & _ & _ & _ & _ & L7).
+  exists i, gn, g'. rewrite nth_include_nat.
+  split; [exact Ei|]. split; [exact Hiref|]. split; [exact Hg'|]. split; [rewrite Hdefs; exact Hdef|]. split; [exact L7|].
+  unfold get_parent, service_desc at 1. cbn [svd_filepath svd_base].
+  rewrite (lookup_fd_registry r fn HPok), Hf. cbn [omap]. exact L7.
+Qed.
